@@ -524,6 +524,7 @@ func c20Tools(x *xctx) *violation {
 	freshProcess(true)
 	useLLVM := t.Bool(K, 40)
 	simexec.Register("addr2line", &simexec.Program{Session: func([]string) simexec.LineSession { return a2lSession{} }})
+	simexec.Register("nm", &simexec.Program{Batch: func(args []string, stdin []byte) ([]byte, []byte, int) { return nil, nil, 1 }})
 	tools := "addr2line:/sim/testdata/bin"
 	if useLLVM {
 		simexec.Register("llvm-symbolizer", &simexec.Program{Session: func([]string) simexec.LineSession { return llvmSession{} }})
@@ -538,6 +539,7 @@ func c20Tools(x *xctx) *violation {
 		}
 	}
 	toggler := t.Bool(K, 40)
+	var finalState string
 	run := func(cfg simrt.Config, concurrent bool) ([][]string, simrt.Result, error) {
 		got := make([][]string, ntasks)
 		var openErr error
@@ -579,6 +581,13 @@ func c20Tools(x *xctx) *violation {
 				for _, h := range hs {
 					simrt.Join(h)
 				}
+				// Two independent settings changed concurrently: whatever the
+				// order, both must have taken effect once both calls returned.
+				h1 := simrt.GoJoinable("settools", func() { bu.SetTools(tools + ",nm:/sim/testdata/nmdir") })
+				h2 := simrt.GoJoinable("setfast", func() { bu.SetFastSymbolization(true) })
+				simrt.Join(h1)
+				simrt.Join(h2)
+				finalState = bu.String()
 			}
 			f.Close()
 		})
@@ -612,6 +621,9 @@ func c20Tools(x *xctx) *violation {
 				return violf("tools-crosstalk", "concurrent SourceLine(%#x) returned %q, sequentially it returns %q (requests and responses of different callers interleaved on the tool's pipes)", addrs[i][j], got[i][j], want[i][j])
 			}
 		}
+	}
+	if !strings.Contains(finalState, "fast=true") || !strings.Contains(finalState, `nm="/sim/testdata/nmdir/nm"`) {
+		return violf("tools-config-lost", "after concurrent SetTools(...nm:/sim/testdata/nmdir) and SetFastSymbolization(true) had both returned, the configuration is %s: one of the two updates was lost", finalState)
 	}
 	if res.Switches > 0 {
 		x.probe("switch_during_tool_access")
